@@ -3,7 +3,7 @@
 // Conventions (DESIGN 2.4): shapes (slot index, lengths, offsets) are concrete per harness instance, data is symbolic;
 // every harness ends in witness!(); all symbolic inputs are drawn first, in a fixed order, so that a counterexample's
 // concrete values can be read back by position.
-use crate::vh_common::nonce_val;
+use crate::vh_common::{nonce_val, okf};
 
 const M96: u128 = 1u128 << 96;
 
@@ -143,6 +143,9 @@ fn recv_datagram(mode: usize, slot: usize, n: usize, cut: usize) {
     let recv_half: bool = kani::any();
     let newbyte: u8 = kani::any();
     let pos: u8 = kani::any();
+    // the connection's key differs from what the receiver's other three slots hold (their first bytes are 0x33/0x11);
+    // otherwise pointing the key id at such a slot is not an alteration the AEAD could notice
+    kani::assume(keyb[0] != 0x11 && keyb[0] != 0x33);
     let algo = &aead::AES_256_GCM;
     let sealer = keyed_slot(algo, &keyb);
     let mut receiver = core_with(algo, &[0x33; 32], recv_half, 0);
@@ -194,22 +197,22 @@ fn recv_datagram(mode: usize, slot: usize, n: usize, cut: usize) {
         // approximation: spurious rejections, never missed ones). Re-storing the unchanged id last keeps it a constant.
         buf.message_mut()[0] = slot as u8;
     }
-    let res = receiver.decrypt(&mut buf);
+    let res = okf(receiver.decrypt(&mut buf));
     let nb = nonce.as_bytes();
     let fits = nb[1] == 0 && nb[2] == 0 && nb[3] == 0 && nb[4] == 0;
     let msb_ok = nb[0] == if recv_half { 0x00 } else { 0x80 };
     let same_key = mode != 11 || !keys_differ;
     if mode == 10 {
         // untouched datagram, right key: accepted iff the counter fits and the halves are opposite
-        assert!(res.is_ok() == (fits && msb_ok));
+        assert!(res.is_some() == (fits && msb_ok));
     } else if changed || !same_key {
         // Engine note (DESIGN 2.4b): once the buffer holds an adversarial byte, symex no longer folds the key-id byte
         // to a constant, `&mut self.keys[key_id]` becomes a symbolic-offset pointer, and this CBMC version havocs the
         // 12-byte memcmp behind `nonce < min_nonce` / `seen_nonce < nonce` (an over-approximation: it can only add
         // rejections). The direction asserted here cannot be falsified by that; the other one is mode 10.
-        assert!(res.is_err());
+        assert!(res.is_none());
     }
-    if res.is_ok() && mode == 10 {
+    if res.is_some() && mode == 10 {
         assert!(buf.get_start() == 100 + EXTRA_LEN && buf.len() == n);
         let m = buf.message();
         let mut i = 0;
@@ -219,16 +222,16 @@ fn recv_datagram(mode: usize, slot: usize, n: usize, cut: usize) {
         }
         assert!(nonce_val(receiver.keys[slot].seen_nonce.as_bytes()) == nonce_val(nb));
     }
-    if res.is_err() {
+    if res.is_none() {
         let mut i = 0;
         while i < 4 {
             assert!(nonce_val(receiver.keys[i].seen_nonce.as_bytes()) == 0);
             i += 1;
         }
     }
-    vcover!(res.is_ok(), "accepted");
-    vcover!(res.is_err() && !changed && same_key && !fits, "overflowing_counter_rejected");
-    vcover!(res.is_err() && !changed && same_key && fits && !msb_ok, "reflected_or_same_half_rejected");
+    vcover!(res.is_some(), "accepted");
+    vcover!(res.is_none() && !changed && same_key && !fits, "overflowing_counter_rejected");
+    vcover!(res.is_none() && !changed && same_key && fits && !msb_ok, "reflected_or_same_half_rejected");
     witness!();
 }
 macro_rules! recv_inst {
@@ -355,7 +358,7 @@ pub fn c03_window_step() {
     k.seen_nonce = seen0.clone();
     k.send_nonce = send0.clone();
     let calls0 = aead::model_open_calls();
-    let res = CryptoCore::decrypt_with_key(&mut k, nonce.clone(), &mut data);
+    let res = okf(CryptoCore::decrypt_with_key(&mut k, nonce.clone(), &mut data));
     let (vmin, vnext, vseen, vn) =
         (nonce_val(min0.as_bytes()), nonce_val(next0.as_bytes()), nonce_val(seen0.as_bytes()), nonce_val(nonce.as_bytes()));
     let seen1 = nonce_val(k.seen_nonce.as_bytes());
@@ -363,7 +366,7 @@ pub fn c03_window_step() {
     assert!(nonce_val(k.min_nonce.as_bytes()) == vmin);
     assert!(nonce_val(k.next_min_nonce.as_bytes()) == vnext);
     assert!(nonce_val(k.send_nonce.as_bytes()) == nonce_val(send0.as_bytes()));
-    if res.is_ok() {
+    if res.is_some() {
         assert!(vn >= vmin);
         assert!(seen1 == if vn > vseen { vn } else { vseen });
     } else {
@@ -373,11 +376,11 @@ pub fn c03_window_step() {
     let calls = aead::model_open_calls() - calls0;
     assert!(calls == if vn < vmin { 0 } else { 1 });
     if vn < vmin {
-        assert!(res.is_err());
+        assert!(res.is_none());
     }
-    vcover!(res.is_ok() && vn > vseen, "accept_newer");
-    vcover!(res.is_ok() && vn < vseen, "accept_reordered");
-    vcover!(res.is_err() && vn >= vmin, "reject_bad_tag");
+    vcover!(res.is_some() && vn > vseen, "accept_newer");
+    vcover!(res.is_some() && vn < vseen, "accept_reordered");
+    vcover!(res.is_none() && vn >= vmin, "reject_bad_tag");
     witness!();
 }
 
@@ -400,14 +403,14 @@ pub fn c03_valid_datagram_accepted_iff_in_window() {
         sealer.key.seal_in_place_separate_tag(aead::Nonce::assume_unique_for_key(*nonce.as_bytes()), aead::Aad::empty(), d).unwrap()
     };
     data[4..].copy_from_slice(tag.as_ref());
-    let res = CryptoCore::decrypt_with_key(&mut k, nonce.clone(), &mut data);
+    let res = okf(CryptoCore::decrypt_with_key(&mut k, nonce.clone(), &mut data));
     let (vmin, vn) = (nonce_val(min0.as_bytes()), nonce_val(nonce.as_bytes()));
-    assert!(res.is_ok() == (vn >= vmin));
-    if res.is_ok() {
+    assert!(res.is_some() == (vn >= vmin));
+    if res.is_some() {
         assert!(data[0] == payload[0] && data[1] == payload[1] && data[2] == payload[2] && data[3] == payload[3]);
     }
-    vcover!(res.is_ok(), "accepted");
-    vcover!(res.is_err(), "rejected_old");
+    vcover!(res.is_some(), "accepted");
+    vcover!(res.is_none(), "rejected_old");
     witness!();
 }
 
@@ -470,8 +473,8 @@ pub fn c03_history_invariant_step() {
         g_prev = g_last;
         g_last = g_all;
     } else {
-        let res = CryptoCore::decrypt_with_key(&mut k, nonce, &mut data);
-        if res.is_ok() {
+        let res = okf(CryptoCore::decrypt_with_key(&mut k, nonce, &mut data));
+        if res.is_some() {
             // safety: higher than every counter accepted before the tick preceding the most recent tick
             assert!(vn + 1 > a_prev);
             if vn + 1 > g_all {
@@ -550,9 +553,9 @@ fn core_decrypt_total(len: usize) {
     let mut buf = MsgBuffer::new(100);
     buf.set_length(len);
     buf.message_mut().copy_from_slice(&data[..len]);
-    let res = core.decrypt(&mut buf);
-    vcover!(res.is_ok(), "accepted");
-    vcover!(res.is_err(), "rejected");
+    let res = okf(core.decrypt(&mut buf));
+    vcover!(res.is_some(), "accepted");
+    vcover!(res.is_none(), "rejected");
     witness!();
 }
 macro_rules! total_inst {
